@@ -8,13 +8,14 @@
                     single-token mutants of a pool of valid path-args
    One initial state per (kind, first token) so that all workers are used.     *)
 EXTENDS XPathSets, XPathLex, Json, SequencesExt
-CONSTANTS Kinds, MaxFull, MaxCore, MaxLref, MutFams, NChunks, MutEvery, MaxChars
+CONSTANTS Kinds, MaxFull, MaxCore, MaxTiny, MaxLref, MutFams, NChunks, MutEvery, MaxChars
 
 FullAlpha == <<"1", "2.5", ".5", "5.", "'s'", "\"d\"", "a", "b", "p:a", "p:*", "zz:a", "not", "concat", "true", "substring",
                "string-length", "count", "current", "deref", "nosuch", "node", "text", "comment", "and", "or", "div", "mod",
                "child", "self", "::", "*", "/", "//", ".", "..", "(", ")", "[", "]", ",", "|", "-", "+", "=", "!=", "<", "<=",
                ">", ">=", "@", "$", "!", "#", "1.2.3">>
 CoreAlpha == <<"1", "'s'", "a", "p:a", "not", "concat", "current", "and", "div", "*", "/", ".", "..", "(", ")", "[", "]", ",", "-", "=", "<">>
+TinyAlpha == <<"1", "a", "and", "*", "/", "(", ")", "[", "]", "-", "=", "not">>
 LrefAlpha == <<"a", "p:b", "zz:c", "current", "/", "..", "[", "]", "=", "(", ")", ".", "*", "1", "'s'", "//">>
 SeqsFrom(alpha, first, maxlen) ==
   LET A == {alpha[i] : i \in 1..Len(alpha)}
@@ -52,7 +53,7 @@ CharStrings(firstc, maxlen) ==
   IN UNION {{firstc \o Concat(s) : s \in [1..n -> A]} : n \in 0..(maxlen - 1)}
 VecC(cs) == LET r == CharVerdict(cs) IN [kind |-> "chars", lang |-> "expr", ts |-> <<cs>>, v |-> r.v, why |-> r.why]
 VARIABLES kind, first, chunk, done
-Jobs == {<<"full", i, 0>> : i \in 1..Len(FullAlpha)} \cup {<<"core", i, 0>> : i \in 1..Len(CoreAlpha)}
+Jobs == {<<"full", i, 0>> : i \in 1..Len(FullAlpha)} \cup {<<"core", i, 0>> : i \in 1..Len(CoreAlpha)} \cup {<<"tiny", i, 0>> : i \in 1..Len(TinyAlpha)}
         \cup {<<"mutant", f, c>> : f \in MutFams, c \in 1..NChunks} \cup {<<"lref", i, 0>> : i \in 1..Len(LrefAlpha)} \cup {<<"lref", 0, 0>>}
         \cup {<<"chars", i, 0>> : i \in 1..Len(CharAlpha)}
 GInit == \E j \in Jobs : kind = j[1] /\ first = j[2] /\ chunk = j[3] /\ kind \in Kinds /\ done = FALSE
@@ -62,6 +63,7 @@ ChunkAsts == LET S == SetToSeq(Family(first))
              IN {S[i] : i \in {j \in 1..Len(S) : j % MutEvery = 0 /\ (j \div MutEvery) % NChunks = chunk - 1}}
 GNext == /\ ~done /\ done' = TRUE /\ UNCHANGED <<kind, first, chunk>>
          /\ CASE kind = "full" -> ndJsonSerialize(File, SetToSeq({VecE(kind, ts) : ts \in SeqsFrom(FullAlpha, FullAlpha[first], MaxFull)}))
+              [] kind = "tiny" -> ndJsonSerialize(File, SetToSeq({VecE(kind, ts) : ts \in SeqsFrom(TinyAlpha, TinyAlpha[first], MaxTiny)}))
               [] kind = "core" -> ndJsonSerialize(File, SetToSeq({VecE(kind, ts) : ts \in SeqsFrom(CoreAlpha, CoreAlpha[first], MaxCore)}))
               [] kind = "mutant" -> ndJsonSerialize(File, SetToSeq({VecE(kind, m) : m \in {x \in UNION {Mutants(Toks(e, "min")) \cup {Toks(e, "min")} : e \in ChunkAsts} : QuoteSafe(x)}}))
                                     \* sanity of the spec itself: every rendered AST is a sentence of the language
